@@ -588,7 +588,7 @@ func c07envelope(c *an.Ctx) {
 	idF := c.P.Field("nsqd", "Message", "ID")
 	tsF := c.P.Field("nsqd", "Message", "Timestamp")
 	bodyF := c.P.Field("nsqd", "Message", "Body")
-	allowed := map[string]bool{"nsqd.NewMessage": true, "nsqd.decodeMessage": true, "(*nsqd.Topic).messagePump": true}
+	allowed := map[string]bool{"nsqd.NewMessage": true, "nsqd.decodeMessage": true}
 	for _, fn := range c.P.RepoFuncs() {
 		an.Instrs(fn, func(in ssa.Instruction) {
 			switch x := in.(type) {
@@ -596,10 +596,10 @@ func c07envelope(c *an.Ctx) {
 				if fa, ok := x.Addr.(*ssa.FieldAddr); ok && (an.FieldOf(fa) == idF || an.FieldOf(fa) == tsF) {
 					name := an.FnName(fn)
 					good := allowed[name]
-					if name == "(*nsqd.Topic).messagePump" {
-						// the copy takes the source message's value
+					if !good {
+						// initialising a fresh copy (NewMessage result in this function) from the same field of its source
 						f, _ := an.LoadedField(an.Strip(x.Val))
-						good = f == an.FieldOf(fa)
+						good = f == an.FieldOf(fa) && an.CallResultOf(fa.X, c.P.Func("nsqd", "NewMessage")) != nil
 					}
 					c.Check(good, fn, "writer of Message."+an.FieldOf(fa).Name(), x.Pos(), "", "Message."+an.FieldOf(fa).Name()+" is rewritten after creation: redeliveries / other channels see a different id or timestamp")
 				}
@@ -625,36 +625,68 @@ func c07envelope(c *an.Ctx) {
 			}
 		})
 	}
-	// the fan-out copy carries the source's timestamp (and deferral) before it is handed to a channel
+	// the fan-out copy carries the source's timestamp (and deferral) before it is handed to a channel;
+	// the copy may be built in the pump or in a helper the pump calls
 	if fn := c.Fn("nsqd", "(*Topic).messagePump"); fn != nil {
 		newMsg := c.P.Func("nsqd", "NewMessage")
 		chPut := c.P.Func("nsqd", "(*Channel).PutMessage")
 		chPutD := c.P.Func("nsqd", "(*Channel).PutMessageDeferred")
 		defF := c.P.Field("nsqd", "Message", "deferred")
-		for _, nc := range an.CallsTo(fn, newMsg) {
-			src := ssa.Value(nil)
-			if f, base := an.LoadedField(an.Strip(arg(nc, 0))); f == idF {
-				src = base
-			}
-			for _, fld := range []*types.Var{tsF, defF} {
-				q := &an.PathQ{Fn: fn, StartAfter: []ssa.Instruction{nc.(ssa.Instruction)},
-					Sink: func(in ssa.Instruction, _ *an.PathState) bool { return isCallToOn(in, chPut, nil) || isCallToOn(in, chPutD, nil) },
-					Cut: func(in ssa.Instruction, _ *an.PathState) bool {
-						st, ok := in.(*ssa.Store)
-						if !ok {
-							return false
+		isPut := func(in ssa.Instruction, _ *an.PathState) bool { return isCallToOn(in, chPut, nil) || isCallToOn(in, chPutD, nil) }
+		keeps := func(in *ssa.Function, nc *ssa.Call, src ssa.Value, sink func(ssa.Instruction, *an.PathState) bool, fld *types.Var) bool {
+			q := &an.PathQ{Fn: in, StartAfter: []ssa.Instruction{nc}, Sink: sink,
+				Cut: func(x ssa.Instruction, _ *an.PathState) bool {
+					st, ok := x.(*ssa.Store)
+					if !ok {
+						return false
+					}
+					fa, ok := st.Addr.(*ssa.FieldAddr)
+					if !ok || an.FieldOf(fa) != fld || !an.SameValue(fa.X, nc) {
+						return false
+					}
+					f, base := an.LoadedField(an.Strip(st.Val))
+					return f == fld && an.SameValue(base, src)
+				}}
+			_, f := q.Find()
+			return !f
+		}
+		seen := map[*ssa.Call]bool{}
+		copies := 0
+		for _, ci := range an.CallsTo(fn, chPut, chPutD) {
+			for _, o := range an.Origins(arg(ci, 0)) {
+				call, ok := o.(*ssa.Call)
+				if !ok || seen[call] {
+					continue
+				}
+				if pt, ok := call.Type().(*types.Pointer); !ok || !types.Identical(pt.Elem(), c.P.Named("nsqd", "Message")) {
+					continue
+				}
+				seen[call] = true
+				mc := msgCopyOf(call, newMsg)
+				if mc == nil {
+					if an.IsCallTo(call, newMsg) || len(an.Origins(arg(ci, 0))) > 1 {
+						c.Bad(fn, "fan-out copy is NewMessage(src.ID, src.Body)", call.Pos(), "a message handed to a channel is built by "+describeCall(call)+", which is not a copy of the source message's ID and Body", nil)
+					}
+					continue
+				}
+				copies++
+				for _, fld := range []*types.Var{tsF, defF} {
+					good := false
+					if mc.Helper == nil {
+						good = keeps(fn, mc.Call, mc.Src, isPut, fld)
+					} else {
+						good = true
+						for _, nc := range mc.Inner {
+							if !keeps(mc.Helper, nc, mc.Param, an.IsReturn, fld) {
+								good = false
+							}
 						}
-						fa, ok := st.Addr.(*ssa.FieldAddr)
-						if !ok || an.FieldOf(fa) != fld || !an.SameValue(fa.X, nc.Value()) {
-							return false
-						}
-						f, base := an.LoadedField(an.Strip(st.Val))
-						return f == fld && src != nil && an.SameValue(base, src)
-					}}
-				_, f := q.Find()
-				c.Check(!f && src != nil, fn, "fan-out copy keeps the source's "+fld.Name(), nc.Pos(), "", "the per-channel copy can be handed to a channel without the source message's "+fld.Name()+": the same message shows a different "+fld.Name()+" on different channels")
+					}
+					c.Check(good, fn, "fan-out copy keeps the source's "+fld.Name(), call.Pos(), "", "the per-channel copy ("+describeCall(call)+") can be handed to a channel without the source message's "+fld.Name()+": the same message shows a different "+fld.Name()+" on different channels")
+				}
 			}
 		}
+		c.Check(copies > 0, fn, "fan-out copy located", fn.Pos(), "", "no per-channel copy (NewMessage(src.ID, src.Body), direct or via a helper) found among the messages the topic pump hands to channels")
 	}
 	// guid.Hex
 	if fn := c.Fn("nsqd", "(guid).Hex"); fn != nil {
